@@ -39,8 +39,27 @@ func genT36(r *kit.Rand, tier kit.Tier) T36 {
 	open := []uint64{}
 	on := false
 
+	var ended []uint64
+
 	for i := 0; i < n; i++ {
 		t += uint64(r.PickInt(0, 0, 1, 1, 3, 10))
+
+		// now and then: a second end for a task that has already ended (reset
+		// teardown paths emit those), or a tag / milestone that reaches the tracer
+		// just before the start event of its task
+		if len(ended) > 0 && r.Chance(1, 12) {
+			c.Evs = append(c.Evs, DEv{Op: "end", ID: ended[r.Intn(len(ended))], T: t})
+			continue
+		}
+
+		if r.Chance(1, 12) {
+			op := []string{"tag", "mile"}[r.Intn(2)]
+			c.Evs = append(c.Evs, DEv{Op: op, ID: next, T: t, What: "early"}, DEv{Op: "start", ID: next, T: t, What: "read"})
+			open = append(open, next)
+			next++
+
+			continue
+		}
 
 		switch k := r.Weighted(5, 4, 3, 3, 2); {
 		case k == 0 || len(open) == 0 && k != 4:
@@ -50,6 +69,7 @@ func genT36(r *kit.Rand, tier kit.Tier) T36 {
 		case k == 1:
 			j := r.Intn(len(open))
 			c.Evs = append(c.Evs, DEv{Op: "end", ID: open[j], T: t})
+			ended = append(ended, open[j])
 			open = append(open[:j], open[j+1:]...)
 		case k == 2:
 			c.Evs = append(c.Evs, DEv{Op: "tag", ID: open[r.Intn(len(open))], T: t, What: []string{"hit", "miss"}[r.Intn(2)]})
@@ -91,6 +111,7 @@ func execT36(c T36, _ *kit.Env) kit.Outcome {
 		miles   []string
 		mileAt  map[uint64]bool
 		running bool
+		started bool
 	}
 
 	tasks := map[uint64]*mtask{}
@@ -107,11 +128,20 @@ func execT36(c T36, _ *kit.Env) kit.Outcome {
 		case "start":
 			loc := fmt.Sprintf("Comp%d.req_in", e.ID%3)
 			db.StartTask(tracing.TaskStart{ID: e.ID, ParentID: e.ID / 2, Kind: "req_in", What: e.What, Location: loc, Time: clk.now})
-			tasks[e.ID] = &mtask{start: e, record: on, running: true, mileAt: map[uint64]bool{}}
+
+			if early := tasks[e.ID]; early != nil && !early.started {
+				early.start, early.record, early.running, early.started = e, on, true, true
+			} else {
+				tasks[e.ID] = &mtask{start: e, record: on, running: true, started: true, mileAt: map[uint64]bool{}}
+			}
 		case "end":
 			db.EndTask(tracing.TaskEnd{ID: e.ID, Time: clk.now})
 
 			m := tasks[e.ID]
+			if !m.running {
+				continue // a second end of a task that has already ended: nothing more may be recorded
+			}
+
 			m.running = false
 
 			if m.record {
@@ -120,10 +150,18 @@ func execT36(c T36, _ *kit.Env) kit.Outcome {
 				wantMiles = append(wantMiles, m.miles...)
 			}
 		case "tag":
+			if tasks[e.ID] == nil {
+				tasks[e.ID] = &mtask{mileAt: map[uint64]bool{}} // reaches the tracer before the start event
+			}
+
 			sideID++
 			db.AddTaskTag(tracing.TaskTag{ID: sideID, TaskID: e.ID, What: e.What, Time: clk.now})
 			tasks[e.ID].tags = append(tasks[e.ID].tags, fmt.Sprintf("{ID:%d TaskID:%d Time:%v What:%s}", sideID, e.ID, float64(e.T), e.What))
 		case "mile":
+			if tasks[e.ID] == nil {
+				tasks[e.ID] = &mtask{mileAt: map[uint64]bool{}}
+			}
+
 			sideID++
 			db.AddMilestone(tracing.Milestone{ID: sideID, TaskID: e.ID, Time: clk.now, Kind: tracing.MilestoneKindQueue, What: e.What})
 
@@ -233,7 +271,7 @@ func multisetDiff(want, got []string) string {
 func init() {
 	kit.Register(kit.Spec[T36]{
 		ID: "C36", Level: "exploration",
-		Rule:        "generated call sequences on the real DBTracer (task starts/ends, tags and milestones inside lifetimes incl. several milestones at one instant, StartTracing/StopTracing windows opening and closing anywhere, tasks left running at Terminate) over an in-memory DataRecorder and a settable clock; a reference decides which tasks must be recorded (tracing on at start, or a window opened while running, and ended before Terminate) with which tags, de-duplicated milestones and segments; the four tables must equal the expected multisets; distinct = call sequence; non-trivial = some tasks recorded and some not",
+		Rule:        "generated call sequences on the real DBTracer (task starts/ends, second ends of tasks that already ended, tags and milestones inside lifetimes incl. several milestones at one instant and some arriving just before their task's start event, StartTracing/StopTracing windows opening and closing anywhere, tasks left running at Terminate) over an in-memory DataRecorder and a settable clock; a reference decides which tasks must be recorded (tracing on at start, or a window opened while running, and ended before Terminate) with which tags, de-duplicated milestones and segments; the four tables must equal the expected multisets; distinct = call sequence; non-trivial = some tasks recorded and some not",
 		Assumptions: []string{"StartTracing and StopTracing alternate (a window is opened before it is closed)", "the SQLite recorder underneath is C35's subject and is replaced by an in-memory recorder here"},
 		Real:        []string{"tracing/dbtracer.go"},
 		Stubs:       []string{"in-memory DataRecorder", "settable clock", "call-sequence generator"},
@@ -248,14 +286,19 @@ func init() {
 				// keep the sequence well formed: every referenced task started before and not ended
 				ok := true
 				open := map[uint64]bool{}
+				everStarted := map[uint64]bool{}
 				on := false
 
-				for _, e := range l {
+				for k, e := range l {
 					switch e.Op {
 					case "start":
 						open[e.ID] = true
+						everStarted[e.ID] = true
 					case "end", "tag", "mile":
-						if !open[e.ID] {
+						early := e.Op != "end" && !everStarted[e.ID] && k+1 < len(l) && l[k+1].Op == "start" && l[k+1].ID == e.ID
+						dupEnd := e.Op == "end" && everStarted[e.ID] && !open[e.ID]
+
+						if !open[e.ID] && !early && !dupEnd {
 							ok = false
 						}
 
